@@ -13,6 +13,9 @@ CLAIMS = {
  "C18": ("abstract interpretation of the repo's AST over a polynomial element domain (result term == stated definition) + AST positional-pairing rule (ORDER)",
          "Decides that each loss's result term equals its stated definition evaluated on blocks paired by type, as an identity of polynomials / opaque-function terms in the symbolic block elements (so for all values), for every insertion order and pytree round trip of either argument, every reduce mode, equal arguments giving identically 0.",
          "Trusted: jnp.linalg.norm = sqrt(sum of squares); argmax is an uninterpreted selection; floating-point rounding and the size of eps not decided. Invariance under g follows from the definition (Frobenius norm + spatial sum) and is not re-derived.", "3/C18"),
+ "C13": ("abstract interpretation of the repo's AST over a symbolic element-provenance domain (round trip == identity) + AST rules PYTREE (flatten fields cover constructor parameters) and SAVELOAD (matching serialise pair)",
+         "Decides for every swept configuration (ordered type signatures k<=3, channels 1-4, D=1..3, non-square extents, 0-3 leading axes, every split axis / expansion size / device count, chains of three operations) that each inverse pair composes to the identity as exact element provenance with types, D and boundary flags preserved -- i.e. for all array values.",
+         "Trusted: NumPy/JAX re-layout semantics as modelled in ginverif.arr; JAX sorts dict keys in pytrees; equinox (de)serialisation is only checked to be the matching pair on binary handles -- bit-for-bit save/load is not decided statically.", "3/C13"),
 }
 
 NA_REASON = "check not built yet in this session (build in progress); see DESIGN.md section 3 for the planned static rule"
